@@ -7,6 +7,8 @@ import (
 	"net"
 	"strings"
 	"time"
+
+	"verifharness/internal/sut"
 )
 
 // client is a plain TCP client with a buffered reader.  Every read carries a generous deadline
@@ -20,7 +22,7 @@ type client struct {
 }
 
 func dial(addr string, wd time.Duration) (*client, error) {
-	conn, err := net.DialTimeout("tcp4", addr, wd)
+	conn, err := sut.DialTCP(addr, wd)
 	if err != nil {
 		return nil, err
 	}
